@@ -47,6 +47,28 @@ def check_dispositions(ctx, rule, f, c, inst):
     return ds
 
 
+def check_sink_code_is_stateless(ctx, prog, tag, crates=("minijinja", "minijinja_contrib")):
+    from ..facts import norm_path
+    mut = {norm_path(s_["path"]).split("::{constant#")[0] for s_ in prog.statics
+           if (s_.get("mut") or not s_.get("freeze", True) or s_.get("thread_local"))}
+    n = 0
+    for f in sorted(prog.fns.values(), key=lambda g: g.path):
+        if f.crate not in crates or f.kind == "closure":
+            continue
+        tys = [f.locals[i].get("s", "") for i in range(1, f.argc + 1)]
+        if not any(("fmt::Formatter" in t or "output::Output" in t) for t in tys):
+            continue
+        n += 1
+        names = set()
+        for g in [f] + prog.closures_of(f.path):
+            names |= set(query.named_consts(g))
+        hit = sorted({m for nm in names for m in mut if nm == m or nm.startswith(m + "::")})
+        ctx.ob("C19.O9.sink-writing-code-keeps-no-state", tag + f.path, not hit,
+               "%s is handed the sink and uses the static / thread-local %s: state that outlives the write - if it is "
+               "tidied up after the write, a failed write leaves it behind for the next render on the thread" % (f.path, hit), f.loc)
+    return n
+
+
 def run(ctx):
     ctx.explain("C19: error-discipline rules over MIR: the Result of every write on Output, and of every call that is "
                 "handed the caller's Output, must be returned or reach a `return Err` on its Err branch (dropping, "
@@ -179,6 +201,15 @@ def run(ctx):
         ctx.ob("C19.O8.formatting-code-hands-the-sink's-verdict-on", tag + "all-formatting-functions", True, "calls checked: %d" % n8, "")
         ctx.floor("C19.O8 calls given a formatter in the engine's formatting code" + tag, n8, 60)
     prog = ctx.prog
+    # O9 (after seed C19-8): code that writes to the sink keeps no state of its own across the write.  A scratch buffer in
+    # a `thread_local!` / static that is emptied *after* the write is left full when the write fails (`?`), and the next
+    # render on the thread delivers the stale text: what a healthy sink receives then depends on an earlier failure.  No
+    # function (or closure of a function) that is handed a `fmt::Formatter` / `Output` names a static with interior
+    # mutability or a thread-local.
+    check_sink_code_is_stateless(ctx, prog, "")
+    sub9 = ctx.fresh()
+    check_sink_code_is_stateless(sub9, ctx.controls, "control:", crates=("mjsa_controls",))
+    ctx.control("C19.O9", any(not o[2] for o in sub9.obligations))
     # O3
     n3 = 0
     for meth in ("write_str", "write_char"):
